@@ -144,7 +144,13 @@ def check_case(case):
     box = BOXES[boxname] if tb is None else None
     out = []
     V = lambda cell, sym, msg: out.append((cell, sym, msg))
-    mins = MINS[case.get("mins", "default")]
+    if case.get("mins") == "full":
+        # the minimum bin size fills the interval exactly (K bins of 1/K): legal as long as (1/K)*K does not exceed 1 in floating point
+        if (1.0 / K) * K > 1.0:
+            return out, {"n": 0}
+        mins = (1.0 / K, 1.0 / K, 1e-3)
+    else:
+        mins = MINS[case.get("mins", "default")]
     try:
         g, (lo, hi), (olo, ohi), knots = make_grid(family, K, box, tb, pname, seed, dtype, inverse, per_bin, mins)
     except Exception as e:
@@ -260,7 +266,7 @@ def _cases_of(fam, K, boxname, tier, seed):
                 if pname == "pat8" and dname == "float32":
                     continue  # single precision is only claimed for moderate magnitudes (C19)
                 for inverse in (False, True):
-                    for mins in (("default",) if fam == "linear" else (("default", "tall", "wide", "steep") if fam == "rq" else ("default", "tall", "wide"))):
+                    for mins in (("default",) if fam == "linear" else (("default", "tall", "wide", "steep", "full") if fam == "rq" else ("default", "tall", "wide", "full"))):
                         if mins != "default" and (pname in ("zero", "pat8", "spike") or K == 1 and tier == "quick"):
                             continue
                         yield {"family": fam, "bins": K, "box": boxname if tb is None else "unit", "tb": tb, "pattern": pname, "seed": seed, "dtype": dname, "inverse": inverse, "per_bin": 8 if tier == "quick" else 24, "mins": mins}
